@@ -58,7 +58,7 @@ def find_windows_path(data: bytes) -> list[Node]:
                     children.append(Node("network.domain", hostname, "", 2, 2 + len(hostname)))
         else:
             path_type = "windows.path"
-        filename = segments[-1]
+        filename = ntpath.basename(path)  # without the drive of a drive relative path
         basename, extension = ntpath.splitext(filename)
         if extension:
             type_ = EXT_MAP.get(extension.lower(), "filename")
